@@ -1,12 +1,12 @@
 #!/usr/bin/env python3
 """small mutation campaign: one textual mutation at a time in /repo/src, then the quick checks of the properties the file belongs to"""
 import re, random, subprocess, sys, os, json, time
-REPO="/repo"; OUT="/verif/.build/mutants.jsonl"
+REPO="/repo"; OUT="/verif/.build/mutants3.jsonl"
 MAP={"src/number/big_number.rs":["C05","C09"],"src/number/num.rs":["C06","C07","C09"],"src/core/parse.rs":["C04","C08"],
-     "src/core/execute.rs":["C01","C14","C12"],"src/core/area.rs":["C01","C07"],"src/core/state.rs":["C01","C02","C11"],
+     "src/core/execute.rs":["C01","C14","C12"],"src/core/area.rs":["C01","C07","C08"],"src/core/state.rs":["C01","C02","C11"],
      "src/core/optimize.rs":["C02","C10"],"src/core/compile.rs":["C03"],"src/core/code.rs":["C08","C04"],
      "src/app/debug.rs":["C11"],"src/app/interpreter.rs":["C12"],"src/app/run.rs":["C02","C13"],"src/app/check.rs":["C13","C08"],
-     "src/util/io.rs":["C13","C14"],"src/util/ext.rs":["C14","C13","C01"]}
+     "src/util/io.rs":["C13","C14","C12","C01"],"src/util/ext.rs":["C14","C13","C01"]}
 OPS=[(r"<=","<"),(r">=",">"),(r"(?<![<>=!-])<(?![<=])","<="),(r"(?<![<>=!-])>(?![>=])",">="),(r"==","!="),(r"!=","=="),
      (r"&&","||"),(r"\|\|","&&"),(r"\+ 1\b","+ 2"),(r"- 1\b","- 0"),(r"\btrue\b","false"),(r"\bfalse\b","true"),
      (r"\b0\b","1"),(r"\b1\b","0"),(r"\b2\b","3"),(r"\b3\b","2"),(r"\.is_empty\(\)",".is_empty() == false"),(r"\.is_pos\(\)",".is_pos() == false")]
